@@ -46,10 +46,6 @@ fn main() {
             let worker: u64 = args[5].parse().unwrap();
             let cases: u32 = args[6].parse().unwrap();
             let out = PathBuf::from(&args[7]);
-            // watchdog: a single-thread call that never returns is a hang, reported as exit 3
-            std::thread::spawn(|| loop {
-                std::thread::sleep(Duration::from_secs(600));
-            });
             driver::run_worker(&eng, prop, tier, seed, worker, cases, &out);
         }
         "replay" => {
